@@ -23,6 +23,20 @@ def cases(tier, seed):
             continue
         for nlin in (1, 3):
             yield f"{cid}/nlin{nlin}", dict(inp, nlin=nlin)
+        if inp.get("layout") in ("single", "disjoint"):
+            # the cached (file) path with several batches: blocks of linear draws are put together by make_full_samples
+            yield f"{cid}/nlin3/cached", dict(inp, nlin=3, cached=True)
+
+
+_seen = set()
+
+
+def priority(inp):
+    f = (bool(inp.get("cached")), inp["nlin"], inp["pt"] > 1, inp["no"] > 0)
+    if f in _seen:
+        return 1
+    _seen.add(f)
+    return 0
 
 
 def nontrivial(inp):
@@ -36,6 +50,8 @@ def check(inp):
     bad = lambda name, **d: fails.append((f"twin:batch_get_posterior_samples/{name}", d))
     prior, data = t01.build(inp)
     samples = t01.rows_for(prior, inp, None)
+    if inp.get("cached"):
+        return check_cached(inp, prior, data, fails)
     rng = S.RecordingGenerator(inp["seed"])
     joker = TheJoker(prior, rng=rng)
     post = joker.rejection_sample(data, samples, in_memory=True, n_linear_samples=inp["nlin"], max_posterior_samples=3)
@@ -71,4 +87,36 @@ def check(inp):
                 got.append(post[nm][r * inp["nlin"] + j].to_value(unit))
             if not np.allclose(got, np.atleast_2d(draws)[j], rtol=1e-12, atol=0):
                 bad("draws-emitted-in-column-order-and-units", row=r, got=got, want=np.atleast_2d(draws)[j])
+    return fails
+
+
+def check_cached(inp, prior, data, fails):
+    """file-backed path, 3 batches, 3 linear draws per accepted row: every accepted prior row (the same ones as in memory for the same seed)
+    appears exactly n_linear_samples times, consecutively, with its nonlinear parameters unchanged, and carries its own draws"""
+    import astropy.units as u
+    from thejoker import TheJoker
+    bad = lambda name, **d: fails.append((f"twin:make_full_samples/{name}", d))
+    from thejoker import RVData
+    lib = prior.sample(size=48, rng=np.random.default_rng(inp["seed"] + 1))
+    nl = inp["nlin"]
+    # weakly informative data, so that several prior rows are accepted (the blocks of several batches have to be put together)
+    weak = lambda d: RVData(t=d.t, rv=d.rv * 0.05, rv_err=d.rv_err * 20.0, t_ref=d.t_ref)
+    data = [weak(d) for d in data] if isinstance(data, list) else weak(data)
+    mem = TheJoker(prior, rng=np.random.default_rng(inp["seed"])).rejection_sample(data, lib, in_memory=True, n_linear_samples=1, max_posterior_samples=7)
+    got = TheJoker(prior, rng=np.random.default_rng(inp["seed"])).rejection_sample(data, lib, in_memory=False, n_batches=3, n_linear_samples=nl,
+                                                                                   max_posterior_samples=7)
+    if len(mem) < 3:
+        return fails        # nothing to put together
+    if len(got) != nl * len(mem):
+        bad("n_linear_samples-rows-per-accepted-sample[cached,n_batches=3]", got=len(got), accepted=len(mem), nlin=nl)
+        return fails
+    for nm, unit in (("P", u.day), ("e", u.one), ("omega", u.rad), ("M0", u.rad)):
+        a = np.repeat(np.asarray(mem[nm].to_value(unit)), nl)
+        b = np.asarray(got[nm].to_value(unit))
+        if not np.allclose(a, b, rtol=1e-13, atol=0):
+            bad("each-draw-paired-with-its-own-nonlinear-row[cached,n_batches=3]", column=nm, want=a, got=b)
+            return fails
+    K = np.asarray(got["K"].value)
+    if len(mem) and (np.any(K == 0.0) or len(np.unique(K)) != len(K)):
+        bad("every-returned-row-carries-its-own-draw[cached,n_batches=3]", K=K)
     return fails
